@@ -5,7 +5,8 @@ C10 — cost accounting: every cost item is charged exactly once, totals add up.
 Model: `Model/Cost.lean` on top of `Crew.deployDay` and `Emission.run`.  The model follows the code
 after the two `fix:` commits recorded in findings.d/C10.json (component-level per-site charge at
 completion; stationary component-level per-day charge per planned site), i.e. one booking rule for
-all three measurement scales.
+all method classes (the measurement scale is not a parameter of the model: the four classes run the
+same loop, which the four-class correspondence of the check establishes).
 -/
 namespace LdarModel.Cost
 open LdarModel.Crew
@@ -20,10 +21,11 @@ def C10_statement : Prop :=
       (dailyRow first ms rep nat).cost = (dailyRow first ms rep nat).methodCols.sum + rep ∧
       (dailyRow first ms rep nat).repCost = rep ∧ (dailyRow first ms rep nat).natRepCost = nat ∧
       ∀ nat', (dailyRow first ms rep nat').cost = (dailyRow first ms rep nat).cost) ∧
-  -- (2) per-site methods (any measurement scale, deployment type, crews, plan): the day's
-  --     deployment cost is the sum over the surveys completed that day of the effective site cost
+  -- (2) per-site methods (any deployment type, crews, plan): the day's deployment cost is the sum,
+  --     over the requests whose report is complete at the end of the day (the schedule only plans
+  --     reports that are not complete, `ReqOk.hC`, so these are the surveys completed that day), of
+  --     the effective site cost
   (∀ (p : MethodP) (budget : Int) (n : Nat) (reqs : List Req), p.perSite = true →
-      (∀ r ∈ reqs, r.rep.complete = false) →
       (deployDay p budget n reqs).stats.cost
         = (((deployDay p budget n reqs).out.filter (fun o => o.rep.complete)).map
             (fun o => siteCharge p o.req)).sum) ∧
@@ -47,7 +49,20 @@ def C10_statement : Prop :=
         = (if (Emission.run p ev N).status = .repaired ∧ (Emission.run p ev N).by_ = .natural then cost else 0)) ∧
   -- (6) a program without methods costs nothing
   (∀ (first : Bool) (nat : Int) (es : List (Emission.Params × Int)) (n : Nat),
-      (dailyRow first [] ((es.map (fun e => (bookDay e.1 e.2 Emission.noEvents n).1)).sum) nat).cost = 0)
+      (dailyRow first [] ((es.map (fun e => (bookDay e.1 e.2 Emission.noEvents n).1)).sum) nat).cost = 0) ∧
+  -- (7) program level: the row of day n carries the sum of that day's bookings of all the program's
+  --     leaks, and over a run the repair-cost column adds up to the costs of exactly the leaks the
+  --     program repaired (each once), the natural column to those of the naturally repaired ones
+  (∀ (ms : Nat → List MethodDay) (es : List Leak) (N : Nat), (∀ e ∈ es, e.p.repairable = true) →
+      (∀ n, (programDay ms es n).repCost = (es.map (fun e => (bookDay e.p e.cost e.ev n).1)).sum ∧
+            (programDay ms es n).cost
+              = ((ms n).map (fun m => m.deploy + if n = 0 then m.upfront else 0)).sum + (programDay ms es n).repCost) ∧
+      sumTo (fun n => (programDay ms es n).repCost) N
+        = (es.map (fun e => if (Emission.run e.p e.ev N).status = .repaired ∧ (Emission.run e.p e.ev N).by_ ≠ .natural
+                            then e.cost else 0)).sum ∧
+      sumTo (fun n => (programDay ms es n).natRepCost) N
+        = (es.map (fun e => if (Emission.run e.p e.ev N).status = .repaired ∧ (Emission.run e.p e.ev N).by_ = .natural
+                            then e.cost else 0)).sum)
 
 /-! ### cost type -/
 
@@ -82,11 +97,10 @@ theorem row_identity (first : Bool) (ms : List MethodDay) (rep nat : Int) :
 /-! ### (2) per-site methods -/
 
 /-- the day's deployment cost of a per-site method is the sum, over the surveys *completed* that
-day, of the site's survey cost (method cost when the site cost is 0) — for every measurement scale
-(`p.scale`), deployment type, crew count and work plan; visits that are aborted by weather, left
+day, of the site's survey cost (method cost when the site cost is 0) — for every deployment type,
+crew count and work plan (and, the loop being shared, every method class); visits that are aborted by weather, left
 partial or not made at all are not charged, a survey that uses up the crew's day is -/
-theorem per_site_once (p : MethodP) (budget : Int) (n : Nat) (reqs : List Req) (hp : p.perSite = true)
-    (_hreq : ∀ r ∈ reqs, r.rep.complete = false) :
+theorem per_site_once (p : MethodP) (budget : Int) (n : Nat) (reqs : List Req) (hp : p.perSite = true) :
     (deployDay p budget n reqs).stats.cost
       = (((deployDay p budget n reqs).out.filter (fun o => o.rep.complete)).map
           (fun o => siteCharge p o.req)).sum := by
@@ -140,6 +154,23 @@ theorem per_site_once_multiday (stationary : Bool) (S charge : Int) (days : List
         by_cases hc2 : (surveyDay stationary S rep d).1.complete = true <;> simp [hc, hc2, h]
   exact key days {} 0 (by simp)
 
+/-- `surveyCostRun` is not a stipulation: one step of it is `deployDay` on the one-request plan of
+that day (one crew with the day's minutes if a crew is available, none otherwise) — same report
+afterwards, and the increment is that day's deployment cost of the per-site method -/
+theorem surveyCostRun_step_is_deployDay (p : MethodP) (hp : p.perSite = true) (r : Req)
+    (hc : r.rep.complete = false) (R : Int) (served : Bool) :
+    let d := deployDay p R (if served then 1 else 0) [r]
+    let x := surveyDay p.stationary r.S r.rep
+               { R := R, T := r.T, workable := workable p r, served := served }
+    d.out.map (·.rep) = [x.1] ∧
+    d.stats.cost = (if x.1.complete = true ∧ ¬ r.rep.complete = true then siteCharge p r else 0) := by
+  cases served
+  · simp [deployDay, serveAll, serve, initCrews, pick, finalize, hp, surveyDay, hc, chargeIfComplete]
+  · simp [deployDay, serveAll, serve, initCrews, pick, finalize, hp, surveyDay, hc, chargeIfComplete,
+      List.range, List.range.loop]
+    generalize surveyStep R r.S r.T r.rep.surveyed p.stationary (workable p r) = o
+    cases o.last <;> cases o.visited <;> simp
+
 /-! ### (3) per-day methods -/
 
 theorem per_day_once (p : MethodP) (budget : Int) (n : Nat) (reqs : List Req) (hp : p.perSite = false) :
@@ -186,8 +217,8 @@ theorem upfront_once (d : DayData) (ds : List DayData) :
 /-- what a method reports as its upfront cost: the configured amount times its crews
 (one pseudo crew for a stationary method) -/
 theorem upfront_amount (c : MethodCost) (stationary : Bool) (crews : Nat) (budget : Int) (cw : Bool)
-    (env : Envelope) (scale : Nat) (reqs : List Req) :
-    (methodDay c stationary cw env scale budget crews reqs).upfront
+    (env : Envelope) (reqs : List Req) :
+    (methodDay c stationary cw env budget crews reqs).upfront
       = c.upfront * (if stationary then 1 else (crews : Int)) := by
   unfold methodDay upfrontCost crewCount
   cases stationary <;> simp
@@ -231,6 +262,62 @@ theorem repair_on_repair_day (p : Emission.Params) (cost : Int) (hc : cost ≠ 0
     · by_cases h2 : (Emission.run p ev (n + 1)).by_ = .natural <;> simp [h0, h1, h2, hc]
     · simp [h0, h1]
 
+/-! ### (7) the program's day -/
+
+private theorem sumTo_add (f g : Nat → Int) (N : Nat) :
+    sumTo (fun n => f n + g n) N = sumTo f N + sumTo g N := by
+  induction N with
+  | zero => rfl
+  | succ n ih => simp only [sumTo, ih]; omega
+
+private theorem sumTo_zero (N : Nat) : sumTo (fun _ => 0) N = 0 := by
+  induction N with
+  | zero => rfl
+  | succ n ih => simp [sumTo, ih]
+
+private theorem sumTo_list (es : List Leak) (f : Leak → Nat → Int) (N : Nat) :
+    sumTo (fun n => (es.map (fun e => f e n)).sum) N = (es.map (fun e => sumTo (f e) N)).sum := by
+  induction es with
+  | nil => simpa using sumTo_zero N
+  | cons e es ih =>
+    simp only [List.map_cons, List.sum_cons]
+    rw [sumTo_add (fun n => f e n) (fun n => (es.map (fun e => f e n)).sum), ih]
+
+/-- the repair-cost column of a program over a run adds up to the costs of exactly the leaks the
+program repaired, each once; natural repairs add up in the other column (from `repair_once`) -/
+theorem program_repairs_once (ms : Nat → List MethodDay) (es : List Leak) (N : Nat)
+    (hr : ∀ e ∈ es, e.p.repairable = true) :
+    (∀ n, (programDay ms es n).repCost = (es.map (fun e => (bookDay e.p e.cost e.ev n).1)).sum ∧
+          (programDay ms es n).cost
+            = ((ms n).map (fun m => m.deploy + if n = 0 then m.upfront else 0)).sum + (programDay ms es n).repCost) ∧
+    sumTo (fun n => (programDay ms es n).repCost) N
+      = (es.map (fun e => if (Emission.run e.p e.ev N).status = .repaired ∧ (Emission.run e.p e.ev N).by_ ≠ .natural
+                          then e.cost else 0)).sum ∧
+    sumTo (fun n => (programDay ms es n).natRepCost) N
+      = (es.map (fun e => if (Emission.run e.p e.ev N).status = .repaired ∧ (Emission.run e.p e.ev N).by_ = .natural
+                          then e.cost else 0)).sum := by
+  refine ⟨fun n => ⟨rfl, ?_⟩, ?_, ?_⟩
+  · have h := (row_identity (n == 0) (ms n) (repSum es n) (natSum es n)).1
+    have e : (programDay ms es n).repCost = repSum es n := rfl
+    rw [e]
+    simp only [programDay]
+    rw [h]
+    cases n <;> simp
+  · show sumTo (fun n => repSum es n) N = _
+    unfold repSum
+    rw [sumTo_list es (fun e n => (bookDay e.p e.cost e.ev n).1) N]
+    apply congrArg
+    apply List.map_congr_left
+    intro e he
+    exact (repair_once e.p e.cost e.ev N (hr e he)).1
+  · show sumTo (fun n => natSum es n) N = _
+    unfold natSum
+    rw [sumTo_list es (fun e n => (bookDay e.p e.cost e.ev n).2) N]
+    apply congrArg
+    apply List.map_congr_left
+    intro e he
+    exact (repair_once e.p e.cost e.ev N (hr e he)).2
+
 /-! ### (6) no methods -/
 
 /-- without methods nobody tags, so nothing is ever booked as a program repair -/
@@ -255,7 +342,8 @@ theorem no_methods_no_cost (first : Bool) (nat : Int) (es : List (Emission.Param
 /-- C10 over the model (the code after the two repairs of findings.d/C10.json) -/
 theorem C10 : C10_statement :=
   ⟨row_identity, per_site_once, per_day_once, upfront_once,
-   fun p cost ev N hr => repair_once p cost ev N hr, no_methods_no_cost⟩
+   fun p cost ev N hr => repair_once p cost ev N hr, no_methods_no_cost,
+   fun ms es N hr => program_repairs_once ms es N hr⟩
 
 /-! ### non-vacuity -/
 
@@ -268,14 +356,14 @@ the crew and is charged 50; a weather-aborted visit and a partial survey are cha
 site with its own cost 75 is charged 75 -/
 example :
     let c : MethodCost := { perDay := 0, perSite := some 50, upfront := 100 }
-    (methodDay c false true envOk 3 480 1
+    (methodDay c false true envOk 480 1
         [{ site := 0, S := 420, siteCost := 0, rep := {}, T := 30, wx := fine }]).deploy = 50 ∧
-    (methodDay c false true envOk 3 480 1
+    (methodDay c false true envOk 480 1
         [{ site := 0, S := 60, siteCost := 0, rep := {}, T := 30, wx := rain }]).deploy = 0 ∧
-    (methodDay c false true envOk 3 480 2
+    (methodDay c false true envOk 480 2
         [{ site := 0, S := 600, siteCost := 0, rep := {}, T := 30, wx := fine },
          { site := 1, S := 60, siteCost := 75, rep := {}, T := 30, wx := fine }]).deploy = 75 ∧
-    (methodDay c false true envOk 3 480 2 []).upfront = 200 := by
+    (methodDay c false true envOk 480 2 []).upfront = 200 := by
   decide +kernel
 
 example :
